@@ -22,7 +22,7 @@ ASSUMPTIONS = [
     "allowed write set in every mode: <out_dir>/**, <core_dir>/**, __init__.py of their ancestor packages; paths outside the project root (temp dirs) are not restricted",
     "a fault is an OSError(ENOSPC) raised before the operation happens (whole-operation granularity, no torn writes)",
 ]
-BOUND = {"quick": "49 configurations (7 layouts x 9 tree kinds x force, reduced) with every single crash point (W~60-250 each) + 16 stage faults, + 16 configurations with post-processing on (fault-free + stage faults)", "thorough": "48 configurations x 2 documents + two-run histories (forced run crashed at k, then a fault-free non-force run)"}
+BOUND = {"quick": "51 configurations (6 layouts x 11 tree kinds x force, reduced) with every single crash point (W~60-250 each) + 16 stage faults, + 16 configurations with post-processing on (fault-free + stage faults)", "thorough": "48 configurations x 2 documents + two-run histories (forced run crashed at k, then a fault-free non-force run)"}
 CHUNK = 1
 CASE_TIMEOUT_S = 900
 
